@@ -112,7 +112,7 @@ PROPS = {
                     {"test": "TestC14", "dir": "C14", "n_quick": 40, "n_thorough": 400},
                     {"test": "TestC18", "dir": "C18", "n_quick": 30, "n_thorough": 300},
                     # the oracle histories (several claims reaching their quorum in one end blocker): two executions, two map orders
-                    {"test": "TestC02", "dir": "C02", "n_quick": 60, "n_thorough": 600},
+                    {"test": "TestC02", "dir": "C02", "n_quick": 250, "n_thorough": 1500},
                     # pruning with its jailing (order-sensitive protections of valset.Jail): two executions, two map orders
                     {"test": "TestC13Prune", "dir": "C13B", "n_quick": 200, "n_thorough": 2000}],
         n_quick=6, n_thorough=60, thorough_seeds=4, timeout_quick=900,
